@@ -575,10 +575,40 @@ class MTVRPSpec(RSpec):
                     if sp < 1.0:  # slower vehicle: stretch all times so that the instance stays sane
                         tw, st = [[a / sp, b / sp] for a, b in tw], [x / sp for x in st]
                     out.append((f"diamond3-lh{'-'.join(str(int(x * 4)) for x in lh)}-L{L}-tw{twi}-speed{sp}", self._inst(pts, lh, bh, L, [list(w) for w in tw], list(st), speed=sp)))
+            # a window that only a FAST vehicle can use: service may start so late that the way home takes d/speed < d
+            sp, T_, s_ = 2.0, 2.0, 0.125
+            tw, st = [[0.0, T_]], [0.0]
+            for i, p_ in enumerate(pts):
+                d0 = d(C, p_)
+                if i == 1:
+                    tw.append([T_ - d0 / sp - s_ - 1 / 16, T_ - d0 / sp - s_ - 1 / 64])
+                else:
+                    tw.append([d0 / sp + 1 / 64, T_ - d0 - s_ - 1 / 64])
+                st.append(s_)
+            out.append((f"diamond3-lh{'-'.join(str(int(x * 4)) for x in lh)}-L{L}-vlate-speed{sp}", self._inst(pts, lh, bh, L, tw, st, speed=sp)))
         return out
 
     def seeded_sizes(self, tier):
         return [3] if tier == "quick" else [3, 4]
+
+    def seeded_instances(self, tier, seed):
+        out = super().seeded_instances(tier, seed)
+        if self.TW:
+            # generator-made instances for faster / slower vehicles: their windows are built for THAT speed (a customer may
+            # be served so late that only a vehicle of the configured speed is back at the depot in time)
+            from rl4co.envs.routing.mtvrp.generator import MTVRPGenerator
+
+            for sp, mt in ((2.0, 4.6), (4.0, 4.6), (0.5, 9.2)) if tier != "quick" else ((2.0, 4.6), (4.0, 4.6)):
+                for j in range(2 if tier == "quick" else 3):
+                    torch.manual_seed(5000 + 100 * seed + 10 * int(sp * 2) + j)
+                    try:
+                        td = MTVRPGenerator(num_loc=3, variant_preset=self.variant, speed=sp, max_time=mt)(1)
+                    except Exception:
+                        continue
+                    inst = td_to_inst(td)
+                    if self.well_formed(inst):
+                        out.append((f"gen-n3-speed{sp}-s{seed}-{j}", inst))
+        return out
 
     def well_formed(self, inst):
         o = oracle_view("mtvrp", inst)
